@@ -261,8 +261,41 @@ def render(ops, final_newline=True):
     return text + ("\n" if final_newline else "")
 
 
+def render_large(spec):
+    """A topology of `n` atoms in one chain, rendered from (n, seed): header text, preprocessor lines, content lines with no /
+    empty / single / double trailing comments, a repeated section -- file sizes from ~70 KiB to over 2 MiB (read buffers, chunked
+    reads and size-dependent shortcuts have their seams at 64 KiB and 1 MiB)."""
+    import random
+    r = random.Random(spec["seed"])
+    n = spec["n"]
+    trail = ["", "", "", " ;", " ; qtot 0.5", " ; a ; b", ";c"]
+    out = ["; generated large topology", '#include "forcefield.itp"', "", "[ moleculetype ]", "; Name nrexcl", "BIG%d   3" % (n % 97), "",
+           "[ atoms ]", ";   nr  type  resnr residue  atom   cgnr     charge       mass"]
+    for i in range(n):
+        out.append("%6d  opls_%03d %5d  R%s   C%d  %6d   %8.4f   %8.4f%s" % (i + 1, r.randint(1, 900), 1 + i // 50, chr(65 + (i // 50) % 26),
+                                                                            i % 1000, i + 1, r.uniform(-1, 1), r.uniform(1, 40),
+                                                                            trail[r.randrange(len(trail))] if r.random() < 0.2 else ""))
+        if r.random() < 0.002:
+            out.append(r.choice(["; block", "", "#ifdef HEAVY_H", "#endif"]))
+    cut = r.randint(1, max(1, n - 2))
+    for a, b in ((0, cut), (cut, n - 1)):
+        out += ["", "[ bonds ]"]
+        for i in range(a, b):
+            out.append("%6d %6d   1 %s" % (i + 1, i + 2, trail[r.randrange(len(trail))] if r.random() < 0.1 else ""))
+    out += ["", "[ angles ]"]
+    for i in range(0, max(0, n - 2), max(1, n // 200)):
+        out.append("%6d %6d %6d  1  109.5  520.0" % (i + 1, i + 2, i + 3))
+    return "\n".join(out) + "\n"
+
+
 def generate(rng, tier, focus):
     if focus == "C16":
+        c = rng.random()
+        if c < 0.002:
+            return {"focus": focus, "large": {"n": rng.randint(16000, 26000), "seed": rng.randrange(2 ** 31)}, "via": "path"}
+        if c < 0.008:
+            return {"focus": focus, "large": {"n": rng.choice([rng.randint(900, 1300), rng.randint(1800, 2600), rng.randint(3500, 5000)]),
+                                              "seed": rng.randrange(2 ** 31)}, "via": rng.choice(["path", "copy", "open_file"])}
         if rng.random() < (0.12 if tier == "quick" else 0.05):
             small = [s for s in SHIPPED if s not in ("DNA_AA.itp", "DNA_CG.itp")]
             return {"focus": focus, "shipped": rng.choice(SHIPPED if tier == "thorough" or rng.random() < 0.1 else small),
@@ -277,7 +310,7 @@ def generate(rng, tier, focus):
 
 
 def abbreviate(trace):
-    if "shipped" in trace:
+    if "shipped" in trace or "large" in trace:
         return trace
     t = dict(trace)
     t["n_lines"] = len(trace["ops"])
@@ -719,6 +752,9 @@ def execute_c16(trace, ctx):
         with open(gaddlemaps.DATA_FILES_PATH[trace["shipped"]]) as f:
             a_text = f.read()
         ctx.probe("shipped_file")
+    elif "large" in trace:
+        a_text = render_large(trace["large"])
+        ctx.probe("large_file_%s" % ("over_1MiB" if len(a_text) > 2 ** 20 else "64KiB_to_1MiB" if len(a_text) > 2 ** 16 else "small"))
     else:
         if truth_from_ops(trace["ops"]) is None:
             ctx.op("history", "invalid-trace")
